@@ -23,7 +23,7 @@ LEVEL_NOTE = ("Data-race freedom and 'no runtime abort' are runtime notions: wha
               "queued-writer probes (reader parked in the backend, writer observed queuing via RWMutex.TryRLock, then released; c16_queued_test.go). "
               "C16_weak_refs_ok is a table obligation (no refcount model in C16's cone; the lifecycle clauses closed-once / no-use-after-close are C05's theorems) and the monitor's lifecycle predicate "
               "(log_ok: nothing enters on a handle whose Close has started) decides the gated rename-vs-parked-Close probes. "
-              "C16_no_deadlock_sites is a FRAGMENT theorem (each thread runs the plan of ONE site); the lift to whole handler runs is not proved.  The depth ranks of opMu/childMu assume the path tree does not change shape while a nested "
+              "C16_no_deadlock_sites is a FRAGMENT theorem (each thread runs the plan of ONE site); C16_no_deadlock_runs (Locks/Runs.v) lifts it to threads running any finite succession of fragments, each under its own valuation; that a Go handler's execution IS such a succession is by inspection of the generator, not proved.  The depth ranks of opMu/childMu assume the path tree does not change shape while a nested "
               "acquisition is in progress (renames hold renameMu for writing). Isolation: the Coq instance is a path store without cross-subtree rename (_partial); "
               "the real server is covered by the concurrent-vs-alone differential. Trusted: go2coq LockGen, the lock semantics of Locks/Locks.v, the harness backend.")
 DESIGN_REF = "6/C16 (wait/notify part of 'no lost wake-up': 6/C06, 6/C14)"
